@@ -257,7 +257,22 @@ def refs_discipline(P, R, rule):
                 def rel(t):
                     return t.ev['k'] == 'store' and outer_field(t.ev['lhs']) == 'refs' and t.ev.get('op') == '--'
                 p = f.path_avoiding(s, rel)
-                R.ob(rule, p is None, s, 'a cleared awaited bit gives its reference back before the function returns', key='clear->unref')
+                ok = p is None
+                if not ok and s.bid not in f.reach([e.dst for e in f.out[s.bid]]):
+                    # the reference may be given back just BEFORE the bit is cleared: what matters is that every path
+                    # through the function gives back as many references as it clears bits (counted below, per path)
+                    def ev3(st, t):
+                        d, c = st
+                        if t.ev['k'] == 'store':
+                            fld, op = outer_field(t.ev['lhs']), t.ev.get('op')
+                            if fld == 'refs' and op == '--':
+                                return (min(d + 1, 3), c)
+                            if fld == MASK and op == '&=':
+                                return (d, min(c + 1, 3))
+                        return st
+                    _, ex3, _, _ = f.forward((0, 0), ev3, None)
+                    ok = bool(ex3) and all(d == c for d, c in ex3)
+                R.ob(rule, ok, s, 'a cleared awaited bit gives its reference back before the function returns', key='clear->unref')
     # ... exactly one: along every path through a function that clears awaited bits, releases and clears come in equal
     # numbers (a second release for one clear frees a service another client still awaits)
     for f in sorted(P.fns.values(), key=lambda x: x.key):
